@@ -3,9 +3,81 @@
 -/
 import Influx.Lemmas.C36BloomSim
 import Influx.Lemmas.C36IDSetSim
+import Influx.Lemmas.C36RHHSim
 
 namespace Influx.Props.C36
 open Influx.C36 Influx.Spec.C36
+
+/-! ## Robin-hood hash map (pkg/rhh), for an ARBITRARY hash function `hf`
+
+`RHH.WF hf s` is the robin-hood invariant of a slot array: every element away from its home
+slot has an occupied predecessor at most one step richer, keys are unique, stored hashes are
+`hf key`.  `RHH.Map.Inv` adds `n = number of occupied slots` and `loadFactor ≤ 100`. -/
+
+/-- **The probe-sequence invariant**: between the home slot of a stored element and its slot,
+    every slot is occupied by an element at least as far from its own home — no empty slot and
+    no richer element is crossed. -/
+theorem rhh_probe_sequence (hf : Key → Nat) (s : RHH.Slots) (hw : RHH.WF hf s) (p : Nat) (e : RHH.Entry)
+    (hp : RHH.At s p e) (n q : Nat) (hq : q < s.length)
+    (hd : RHH.dist e.hash q s.length + n = RHH.dist e.hash p s.length) :
+    ∃ e', RHH.At s q e' ∧ RHH.dist e.hash q s.length ≤ RHH.dist e'.hash q s.length :=
+  hw.path hp n q hq hd
+
+/-- **Get refines the abstract map** `Key → Option Val`: `Get(k)` returns `v` iff the entry
+    `(k, v)` is stored. -/
+theorem rhh_get (hf : Key → Nat) (m : RHH.Map) (h : m.Inv hf) (k : Key) (v : Int) :
+    m.get (hf k) k = some v ↔ ∃ e, RHH.Mem m.slots e ∧ e.key = k ∧ e.val = v :=
+  RHH.Map.get_spec h k v
+
+/-- **Put is a map update** (insert with displacement, growing at the load factor): it
+    re-establishes the invariant, afterwards `Get k = v`, every other key reads as before, and
+    `Len` grows exactly when the key was new. -/
+theorem rhh_put (hf : Key → Nat) (m m' : RHH.Map) (h : m.Inv hf) (k : Key) (v : Int)
+    (hp : m.put (hf k) k v = some m') :
+    m'.Inv hf ∧ m'.get (hf k) k = some v ∧
+      (∀ k', k' ≠ k → m'.get (hf k') k' = m.get (hf k') k') ∧
+      ((∃ e, RHH.Mem m.slots e ∧ e.key = k) → m'.n = m.n) ∧
+      ((∀ e, RHH.Mem m.slots e → e.key ≠ k) → m'.n = m.n + 1) := by
+  obtain ⟨hI', hmem, hn1, hn2⟩ := RHH.Map.put_spec h k v hp
+  refine ⟨hI', ?_, ?_, hn1, hn2⟩
+  · exact (RHH.Map.get_spec hI' k v).mpr ⟨⟨hf k, k, v⟩, (hmem _).mpr (Or.inr rfl), rfl, rfl⟩
+  · intro k' hk'
+    cases hg : m.get (hf k') k' with
+    | none =>
+      apply (RHH.Map.get_none hI' k').mpr
+      intro e he hke
+      rcases (hmem e).mp he with ⟨he', _⟩ | rfl
+      · exact (RHH.Map.get_none h k').mp hg e he' hke
+      · exact hk' hke.symm
+    | some v' =>
+      obtain ⟨e, he, hke, hve⟩ := (RHH.Map.get_spec h k' v').mp hg
+      exact (RHH.Map.get_spec hI' k' v').mpr ⟨e, (hmem e).mpr (Or.inl ⟨he, by rw [hke]; exact hk'⟩), hke, hve⟩
+
+/-- `Put` always returns while doubling the capacity stays in range (2^61 slots). -/
+theorem rhh_put_total (hf : Key → Nat) (m : RHH.Map) (h : m.Inv hf) (k : Key) (v : Int)
+    (hcap : m.cap * 2 ≤ 2 ^ 61) : ∃ m', m.put (hf k) k v = some m' :=
+  RHH.Map.put_total h k v hcap
+
+/-- `Grow` keeps every entry (and `Len`). -/
+theorem rhh_grow (hf : Key → Nat) (m m' : RHH.Map) (h : m.Inv hf) (sz : Nat) (hg : m.grow sz = some m') :
+    m'.Inv hf ∧ (∀ k, m'.get (hf k) k = m.get (hf k) k) ∧ m'.n = m.n := by
+  obtain ⟨hI', hmem, hn, _, _⟩ := RHH.Map.grow_spec h hg
+  refine ⟨hI', ?_, hn⟩
+  intro k
+  cases hg0 : m.get (hf k) k with
+  | none =>
+    apply (RHH.Map.get_none hI' k).mpr
+    intro e he
+    exact (RHH.Map.get_none h k).mp hg0 e ((hmem e).mp he)
+  | some v =>
+    obtain ⟨e, he, hke, hve⟩ := (RHH.Map.get_spec h k v).mp hg0
+    exact (RHH.Map.get_spec hI' k v).mpr ⟨e, (hmem e).mpr he, hke, hve⟩
+
+/-- a fresh map satisfies the invariant and is empty -/
+theorem rhh_new (hf : Key → Nat) (capacity lf : Nat) (m : RHH.Map) (h : RHH.Map.new capacity lf = some m)
+    (hlf : lf ≤ 100) : m.Inv hf ∧ ∀ k, m.get (hf k) k = none := by
+  obtain ⟨hI, hemp⟩ := RHH.Map.new_inv hf h hlf
+  exact ⟨hI, fun k => (RHH.Map.get_none hI k).mpr (fun e he => absurd he (hemp e))⟩
 
 /-! ## Bloom filter (pkg/bloom) -/
 
@@ -70,44 +142,54 @@ theorem idset_truncation_witness : IDSet.contains (IDSet.add [] (2 ^ 32 + 5)) 5 
 
 /-- the part of the op language whose refinement proof is complete so far -/
 def Supported : Op → Prop
+  | .r _ => True
   | .b _ => True
   | .s _ => True
   | _ => False
 
-/-- well-formed op: its hashes are those of its key; ids fit 32 bits -/
-def WF (bh : Key → Nat × Nat) : Op → Prop
+/-- well-formed op: its hashes are those of its key (`hf` for the hash map, `bh` for the bloom
+    filter); load factors are at most 100; ids fit 32 bits -/
+def WF (hf : Key → Nat) (bh : Key → Nat × Nat) : Op → Prop
+  | .r o => ROp.WF hf o
   | .b o => BOp.WF bh o
   | .s o => SOp.WF o
   | _ => True
 
-structure R (bh : Key → Nat × Nat) (st : State) (sp : SpecState) : Prop where
+structure R (hf : Key → Nat) (bh : Key → Nat × Nat) (st : State) (sp : SpecState) : Prop where
+  r : RR hf st.map sp.rmap
   b : RB bh st.bf sp.bloom
   s : RS st.sets sp.s
 
-theorem R_init (bh) : R bh init {} := ⟨RB_init bh, RS_init⟩
+theorem R_init (hf bh) : R hf bh init {} := ⟨trivial, RB_init bh, RS_init⟩
 
-theorem step_sim (bh) (st sp) (op : Op) (hR : R bh st sp) (hs : Supported op) (hwf : WF bh op) :
-    (check sp op (step st op).2).2 = none ∧ R bh (step st op).1 (check sp op (step st op).2).1 := by
+theorem step_sim (hf bh) (st sp) (op : Op) (hR : R hf bh st sp) (hs : Supported op) (hwf : WF hf bh op)
+    (hns : ¬ Obs.stuck (step st op).2) :
+    (check sp op (step st op).2).2 = none ∧ R hf bh (step st op).1 (check sp op (step st op).2).1 := by
   cases op with
-  | r o => cases hs
   | t o => cases hs
+  | r o =>
+    have := stepR_sim hf st.map sp.rmap o hR.r hwf hns
+    simp only [step, check]
+    exact ⟨this.1, ⟨this.2, hR.b, hR.s⟩⟩
   | b o =>
     have := stepB_sim bh st.bf sp.bloom o hR.b hwf
     simp only [step, check]
-    exact ⟨this.1, ⟨this.2, hR.s⟩⟩
+    exact ⟨this.1, ⟨hR.r, this.2, hR.s⟩⟩
   | s o =>
     have := stepS_sim st.sets sp.s o hR.s hwf
     simp only [step, check]
-    exact ⟨this.1, ⟨hR.b, this.2⟩⟩
+    exact ⟨this.1, ⟨hR.r, hR.b, this.2⟩⟩
 
-theorem firstFailure_run (bh) (ops : List Op) : ∀ (st sp), R bh st sp →
-    (∀ op ∈ ops, Supported op ∧ WF bh op) → firstFailure sp (run st ops) = none := by
+theorem firstFailure_run (hf bh) (ops : List Op) : ∀ (st sp), R hf bh st sp →
+    (∀ op ∈ ops, Supported op ∧ WF hf bh op) → (∀ x ∈ run st ops, ¬ Obs.stuck x.2) →
+    firstFailure sp (run st ops) = none := by
   induction ops with
   | nil => intros; rfl
   | cons op ops ih =>
-    intro st sp hR hall
+    intro st sp hR hall hns
     have h1 := hall op (by simp)
-    have := step_sim bh st sp op hR h1.1 h1.2
+    have hns1 : ¬ Obs.stuck (step st op).2 := hns (op, (step st op).2) (by simp [run])
+    have := step_sim hf bh st sp op hR h1.1 h1.2 hns1
     simp only [run, firstFailure]
     cases hc : check sp op (step st op).2 with
     | mk sp' c =>
@@ -115,18 +197,25 @@ theorem firstFailure_run (bh) (ops : List Op) : ∀ (st sp), R bh st sp →
       simp only at this
       obtain ⟨hnone, hR'⟩ := this
       subst hnone
-      exact ih _ _ hR' (fun o ho => hall o (by simp [ho]))
+      exact ih _ _ hR' (fun o ho => hall o (by simp [ho])) (fun x hx => hns x (by simp [run, hx]))
 
-/-- **C36 on the model (partial)**: for every pair of bloom hash functions `bh`, the statement
-    checker accepts every trace the model produces on well-formed ops.
-    PARTIAL: restricted to the `Supported` ops (bloom + id sets so far). -/
-theorem C36_holdsOn_partial (bh : Key → Nat × Nat) (ops : List Op)
-    (h : ∀ op ∈ ops, Supported op ∧ WF bh op) : holdsOn (run init ops) = true := by
-  simp [holdsOn, firstFailure_run bh ops init {} (R_init bh) h]
+/-- **C36 on the model (partial)**: for EVERY hash function `hf` of the hash map and every
+    pair of hash functions `bh` of the bloom filter, the statement checker accepts every trace
+    the model produces on well-formed ops.
+    PARTIAL: (1) restricted to the `Supported` ops (hash map, bloom filter, id sets so far);
+    (2) `WF`: ids below 2^32 (known finding: uint32 truncation), load factor ≤ 100;
+    (3) no model answer is `hang`/`panic` — by `rhh_put_total` that can only happen beyond a
+    capacity of 2^60 slots. -/
+theorem C36_holdsOn_partial (hf : Key → Nat) (bh : Key → Nat × Nat) (ops : List Op)
+    (h : ∀ op ∈ ops, Supported op ∧ WF hf bh op) (hns : ∀ x ∈ run init ops, ¬ Obs.stuck x.2) :
+    holdsOn (run init ops) = true := by
+  simp [holdsOn, firstFailure_run hf bh ops init {} (R_init hf bh) h hns]
 
--- the hypothesis is met by non-trivial op sequences
-example : ∀ op ∈ [Op.b (.new 0 64 3), .b (.ins 0 [1, 2] 7 9), .b (.has 0 [1, 2] 7 9), .s (.add 1 5), .s (.slice 1)],
-    Supported op ∧ WF (fun _ => (7, 9)) op := by
-  intro op h; simp at h; rcases h with rfl | rfl | rfl | rfl | rfl <;> simp [Supported, WF, BOp.WF, SOp.WF]
+-- the hypotheses are met by non-trivial op sequences
+example : ∀ op ∈ [Op.r (.new 4 90), .r (.put [1] 5 7), .r (.get [1] 5), .b (.new 0 64 3), .b (.ins 0 [1, 2] 7 9),
+    .b (.has 0 [1, 2] 7 9), .s (.add 1 5), .s (.slice 1)],
+    Supported op ∧ WF (fun _ => 5) (fun _ => (7, 9)) op := by
+  intro op h; simp at h
+  rcases h with rfl | rfl | rfl | rfl | rfl | rfl | rfl | rfl <;> simp [Supported, WF, ROp.WF, BOp.WF, SOp.WF]
 
 end Influx.Props.C36
